@@ -235,11 +235,13 @@ def handle (s : DState) : List String → DState × String
     | _, _, _ => (s, "bad-op")
   | ["startstop", now, mode, cal, tstop] =>
     let m : Option StartMode := match mode with
-      | "ok" => some .ok | "aborted" => some .abortedBefore | "raises" => some .startRaises | _ => none
+      | "ok" => some .ok | "aborted" => some .abortedBefore | "raises" => some .startRaises
+      | "raises0" => some .startRaises | _ => none
     match now.toNat?, m, parseCal cal, tstop.toNat? with
     | some now, some m, some cal, some tstop =>
       if s.circ.phase != .idle then (s, "bad-op") else
-      match startAny s.circ s.faults cal now m with
+      -- "raises0": the failing `start()` was the first one, no block of the model was started (or is stopped)
+      match startAny { s.circ with started := mode != "raises0" } s.faults cal now m with
       | some c0 =>
         -- (the stop of a failed start happens on the same storage: with its faults, if any)
         let c := if s.faults != {} then (c0.stopBeginF s.faults tstop).stopEnd tstop true else c0.stop tstop
